@@ -2,7 +2,7 @@
    (Order-independence of the rendered result and "each effect once" are additionally checked on the
    implementation by re-rendering with permuted control attributes and by call counters.) *)
 From Coq Require Import Sorting.Sorted.
-From Tpl Require Import Html.Exec Proofs.ExecSpec Proofs.SortProps Proofs.FragmentProps Proofs.FactsAgree Proofs.OrderIrrelevant Proofs.Compose Proofs.RemoveModes Proofs.RenderPlain.
+From Tpl Require Import Html.Exec Proofs.ExecSpec Proofs.SortProps Proofs.FragmentProps Proofs.FactsAgree Proofs.OrderIrrelevant Proofs.Compose Proofs.RemoveModes Proofs.RenderPlain Proofs.NoDirectiveOut Proofs.NoDirectiveTree.
 Open Scope N_scope.
 
 (* Tag.SortedAttr is a permutation, sorted by the documented key, and STABLE: attributes with the same
@@ -115,7 +115,40 @@ Theorem printed_open_tag_has_no_directive : forall mgr d tok,
   (forall a, In a (t_attrs (stripped mgr d tok)) -> prefixb (m_attr_prefix mgr) (a_name a) = false) /\
   (forall a, In a (t_attrs (stripped mgr d tok)) -> In a (t_attrs tok)).
 Proof. exact RemoveModes.open_tag_no_directive. Qed.
+
+(* "... and no directive attribute, block tag or hidden comment ever appears in the output" - for ANY attributes on the
+   element, any scope, any nested-render behaviour: the open tag an element prints is  <name  followed by parts that are
+   either the print of a PLAIN attribute of the token or  cmd="escape v"  for a dynamic attribute prefix++cmd (tag_shape);
+   no printed attribute name starts with the prefix unless the source doubles it (::x); a block tag (also <t:block/>)
+   and a hidden comment print nothing of themselves; and the whole output of Execute, also of a failing one, is built from
+   source text/comment/CDATA tokens, such open tags, end tags of non-block elements, escaped :text values and :raw values. *)
+Theorem printed_open_tag_shape : forall is_space to_lower is_letter is_udigit methods call_fn mgr
+    (exec : N -> list node -> node -> scope -> bool -> tbl -> rst -> R) mask ctx n tok l sc t st ls t' st',
+  incl l (t_attrs tok) ->
+  run_attrs is_space is_letter is_udigit methods call_fn mgr exec mask ctx n (t_attrs tok) l (init_lstate to_lower mgr mask tok sc) t st
+    = (inl ls, t', st') ->
+  tag_shape mgr tok (l_tagbuf ls).
+Proof. exact NoDirectiveOut.run_attrs_tag_shape. Qed.
+Theorem no_prefixed_attribute_printed : forall mgr tok buf,
+  (forall a, In a (t_attrs tok) -> prefixb (m_attr_prefix mgr ++ m_attr_prefix mgr) (a_name a) = false) ->
+  tag_shape mgr tok buf ->
+  exists parts, buf = cLT :: t_name tok ++ flat_map part_print parts /\ Forall (name_ok mgr tok) parts /\
+                Forall (fun p => prefixb (m_attr_prefix mgr) (part_name p) = false) parts.
+Proof. exact NoDirectiveOut.no_prefixed_name_printed. Qed.
+Theorem hidden_comment_prints_nothing : forall is_space to_lower is_letter is_udigit methods call_fn mgr
+    (exec : N -> list node -> node -> scope -> bool -> tbl -> rst -> R) mask ctx n tok sc top t st,
+  n_tok n = Some tok -> t_kind tok = KComment -> is_hidden_comment is_space (t_value tok) = true ->
+  exec_body is_space to_lower is_letter is_udigit methods call_fn mgr exec mask ctx n sc top t st = wr top [] t st.
+Proof. exact NoDirectiveOut.hidden_comment_prints_nothing. Qed.
+Theorem output_is_built_from_permitted_pieces : forall is_space to_lower is_letter is_udigit methods call_fn mgr fuel tp data t st o r t' st',
+  execute is_space to_lower is_letter is_udigit methods call_fn mgr fuel tp data t st = (o, r, t', st') ->
+  emitted is_space to_lower is_letter is_udigit methods call_fn mgr (reach mgr (tp_children tp ++ tp_ctx tp)) o.
+Proof. exact NoDirectiveTree.execute_output. Qed.
 Print Assumptions sorted_perm.
+Print Assumptions printed_open_tag_shape.
+Print Assumptions no_prefixed_attribute_printed.
+Print Assumptions hidden_comment_prints_nothing.
+Print Assumptions output_is_built_from_permitted_pieces.
 Print Assumptions remove_all.
 Print Assumptions remove_body.
 Print Assumptions remove_tag.
